@@ -127,3 +127,39 @@ def const_str(e: Optional[ast.AST]) -> Optional[str]:
 
 def stmt_text(s: ast.AST) -> str:
     return short(s, 200)
+
+
+def replace_chain(e: ast.AST) -> Optional[Tuple[ast.expr, List[Tuple[str, str]]]]:
+    """`X.replace(a, b).replace(c, d)` -> (X, [(a, b), (c, d)]) for constant args."""
+    chain: List[Tuple[str, str]] = []
+    cur = e
+    while (
+        isinstance(cur, ast.Call)
+        and isinstance(cur.func, ast.Attribute)
+        and cur.func.attr == "replace"
+        and len(cur.args) == 2
+        and all(isinstance(a, ast.Constant) and isinstance(a.value, str) for a in cur.args)
+    ):
+        chain.append((cur.args[0].value, cur.args[1].value))  # type: ignore[union-attr]
+        cur = cur.func.value
+    if not chain:
+        return None
+    chain.reverse()
+    return cur, chain  # type: ignore[return-value]
+
+
+def outermost_replace_chains(node: ast.AST) -> List[Tuple[ast.Call, ast.expr, List[Tuple[str, str]]]]:
+    """All maximal replace chains below `node`."""
+    inner: set = set()
+    out = []
+    for n in ast.walk(node):
+        if isinstance(n, ast.Call) and id(n) not in inner:
+            rc = replace_chain(n)
+            if rc is not None:
+                base, chain = rc
+                cur = n
+                while isinstance(cur, ast.Call) and isinstance(cur.func, ast.Attribute) and cur.func.attr == "replace":
+                    inner.add(id(cur))
+                    cur = cur.func.value
+                out.append((n, base, chain))
+    return out
